@@ -41,7 +41,9 @@ def handle (line : String) : String :=
       | "C04" => handleC04 inp obs
       | "C10" => handleC10 inp obs
       | "C01" => handleC01 inp obs
-      | "C09" => handleC09 inp obs
+      | "C09" => (match inp with
+          | "sorter" :: rest => handleC01 rest obs     -- a sort through the real chunk files, judged as a C01 case
+          | _ => handleC09 inp obs)
       | "C15" => handleC15 inp obs
       | "C13" => handleC13 inp obs
       | "C14" => handleC14 inp obs
